@@ -32,6 +32,7 @@ class Event:
 class State:
     def __init__(self, lin):
         self.lin = lin
+        lin.owner = self     # a `decide` callback reached through a conditional EXPRESSION gets the path state, like one reached through an if statement
         self.tup = {}
         self.events = []
         self.conds = []
@@ -78,7 +79,7 @@ class SymX:
         self.decide = decide
         self.max_paths = max_paths
         self.follow_except = follow_except
-        lin = Lin(init_env, call_hook, attr_hook, consts, (lambda t, l: decide(t, l)) if decide else None)
+        lin = Lin(init_env, call_hook, attr_hook, consts, (lambda t, l: decide(t, getattr(l, 'owner', l))) if decide else None)
         self.start = State(lin)
         self.truncated = False
 
